@@ -602,6 +602,9 @@ fn do_repeat(out: &mut CaseOut, w: &mut Window, code: u16, hostile: bool) {
         return;
     }
     out.inc("completeness_judged");
+    if CHORD_POOL.iter().flatten().any(|k| attributed.contains(&code_name(osc(k)))) {
+        out.inc(if w.cfg.chords_v2 { "judged_with_v2_chord_output_down" } else { "judged_with_v1_chord_output_down" });
+    }
     for f in &cell.forms {
         out.inc(&format!("judged_form_{f}"));
     }
@@ -814,7 +817,9 @@ fn run_window(out: &mut CaseOut, cfg: &Cfg, rng: &mut Rng, wi: usize) -> Option<
             }
             w.d.press(code);
             let lp = (w.held_layers.clone(), w.base);
-            if w.effective_cell(ki, &lp).unmod {
+            // with chords v1 a pending chord claims the other group keys by coordinate, whatever the
+            // current layer says, so any layer's cell of this key counts
+            if w.effective_cell(ki, &lp).unmod || (w.cfg.chords_v1 && w.cfg.cells.iter().any(|row| row[ki].unmod)) {
                 w.unmod_pressed = true;
             }
             w.held.push(Held { ki, code, before, from_settled, layers_at_press: lp });
@@ -1001,26 +1006,33 @@ impl Check for C14Check {
         ]
     }
     fn floors(&self, ctx: &Ctx) -> Vec<(&'static str, u64)> {
-        let s = ctx.tier.sel(1, 20);
+        let s = ctx.tier.sel(1, 12);
         vec![
-            ("repeats_injected", 40_000 * s),
-            ("repeats_forwarded", 10_000 * s),
-            ("completeness_judged", 8_000 * s),
-            ("repeats_during_pending_decision", 500 * s),
-            ("repeats_in_sequence_mode", 300 * s),
-            ("judged_with_held_layer", 1_000 * s),
-            ("judged_with_overrides", 1_000 * s),
-            ("judged_form_fork", 300 * s),
-            ("judged_form_switch", 300 * s),
-            ("judged_form_multi", 300 * s),
-            ("judged_form_tap-hold", 50 * s),
-            ("judged_form_tap-dance", 50 * s),
-            ("judged_form_one-shot", 100 * s),
-            ("judged_form_unmod", 50 * s),
-            ("judged_form_use-defsrc", 20 * s),
-            ("judged_form_transparent", 100 * s),
-            ("judged_form_chord", 500 * s),
-            ("judged_form_chord-v1", 50 * s),
+            ("repeats_injected", 300_000 * s),
+            ("repeats_forwarded", 150_000 * s),
+            ("completeness_judged", 70_000 * s),
+            ("repeats_during_pending_decision", 15_000 * s),
+            ("repeats_in_sequence_mode", 10_000 * s),
+            ("judged_with_held_layer", 20_000 * s),
+            ("judged_on_switched_base_layer", 15_000 * s),
+            ("judged_with_overrides", 30_000 * s),
+            ("judged_depth_3", 3_000 * s),
+            ("judged_form_fork", 8_000 * s),
+            ("judged_form_switch", 7_000 * s),
+            ("judged_form_multi", 10_000 * s),
+            ("judged_form_tap-hold", 1_000 * s),
+            ("judged_form_tap-hold-release-keys", 1_000 * s),
+            ("judged_form_tap-dance", 1_500 * s),
+            ("judged_form_one-shot", 7_000 * s),
+            ("judged_form_unmod", 5_000 * s),
+            ("judged_form_unshift", 2_000 * s),
+            ("judged_form_use-defsrc", 2_000 * s),
+            ("judged_form_transparent", 7_000 * s),
+            ("judged_form_chord", 20_000 * s),
+            ("judged_form_chord-v1", 5_000 * s),
+            ("configs_with_chords_v2", 2_000 * s),
+            ("judged_with_v2_chord_output_down", 1_500 * s),
+            ("judged_with_v1_chord_output_down", 200 * s),
             ("minimal_unmod_override_witness_runs", 1),
         ]
     }
